@@ -312,6 +312,21 @@ def run(ctx):
               "for a valid batch_size the receive loop does not run at all (iterations for batch_size 1/2/64: %s, loop over %s): the server starts, "
               "passes its health check and never reads a request" % (its, values.fmt(bl["source"]) if bl["source"] else None), bl["fn"].loc(bl["header"]))
 
+    # "every configuration composed of documented settings": the loaders must take every documented setting as written.  A setting that a loader
+    # drops (or stores only when another setting came first) turns a valid configuration into one that validation refuses; the key-name and
+    # wiring rules of C16 are therefore obligations of C15 as well.
+    import importlib
+    from framework import Ctx
+    c16 = importlib.import_module("rules.C16")
+    sub16 = Ctx("C16", P, ctx.repo, "quick", ctx.feature)
+    c16.run(sub16)
+    mine16 = [i for i in sub16.instances if i["rule"] in ("wiring", "key-names")]
+    bad16 = [i for i in mine16 if not i["ok"]]
+    ctx.check("settings-loaded", "documented-settings-are-loaded-as-written(C16)", not bad16, "both loaders store every documented setting (C16 key-name and wiring rules: %d instances)" % len(mine16),
+              "a documented setting is not loaded as written, so a valid configuration can be refused or run differently: " + (bad16[0]["detail"] if bad16 else ""),
+              bad16[0].get("loc") if bad16 else None)
+    ctx.floor("settings-loaded", len(mine16), 40, "C16 key-name / wiring instances")
+
 def fixture(fctx):
     import fixture_checks
     return fixture_checks.nopanic_alive(fctx)
